@@ -892,7 +892,7 @@ def coincidence_config(rng, cls: str) -> tuple[dict, np.ndarray]:
     cfg = {}
     if cls == "slices==height":
         three_d = True
-        if rng.random() < 0.5:
+        if rng.random() < 0.3:
             h = ns = rng.choice([6, 8])
             w = rng.choice([6, 7, 9])
             ch, cw = rng.randint(3, h), rng.randint(3, w - 1)
@@ -1162,7 +1162,7 @@ def _oracle(ctx: Ctx, deep: bool = False):
         yield from _guarded(check_config(cfg, k), {"op": "pipeline", **cfg})
     # (i-co) coincidence classes of axis lengths for crop / pad / rescale, 2-D and 3-D: the crop-shape statement (`crop_shape`,
     #         `shape_tags` in Lean are about tags; here the real shapes) is checked on the implementation for each class
-    for i in range(ctx.budget(18, 270) * (3 if deep else 1)):
+    for i in range(ctx.budget(27, 270) * (3 if deep else 1)):
         cls = COINCIDENCES[i % len(COINCIDENCES)]
         cfg, k = coincidence_config(rng, cls)
         ctx.count(("oracle-coincidence", cls, tuple(flag_list(cfg["flags"])), tuple(k.shape), cfg["seed"]), True,
